@@ -95,7 +95,11 @@ def replay_behaviour(rep, lst, oracle, beh, fname, n, state):
                     lst.step = probe_value(steps, arg, n)
                     ambiguous = (0 <= arg <= 4 * (n - 1) and arg % 4 == 2)
                 elif act == "history":
-                    h = lst.history(selection_for(lst, arg))
+                    # history's options vary with the position in the behaviour (plain, full results only, dated)
+                    kw = [{}, {"short": False}, {"start_datetime": __import__("datetime").datetime(2000, 1, 1)}][len(done) % 3]
+                    if "start_datetime" in kw and not (max(abs(float(x)) for x in times) < 1.0e9):
+                        kw = {}         # (times beyond what a timedelta holds: outside what a dated history can express)
+                    h = lst.history(selection_for(lst, arg), **kw)
                     if h is None and arg != 3:
                         raise RuntimeError("history returned None for a valid selection")
         except core.Hang as e:
